@@ -34,6 +34,12 @@ types, assume_specifications, spec functions, lemmas):
                                       the statement `W.resource_scope(move |w, mut r: Mut<R>| { BODY });` is rewritten: the closure is lifted into
                                       `fn <name>(<captures>, w: &mut World, r: Mut<R>) { BODY }` (BODY byte-for-byte) and the statement becomes what Bevy documents for
                                       resource_scope: `{ let mut verif_res: R = W.verif_scope_take::<R>(); <name>(.., W, &mut verif_res); W.verif_scope_put(verif_res); }`
+  //@liftposition <needle> | <name> | <elem type> | <extra locals>   (DESIGN 9.2 rule 17; //@lift| = contract of <name>, //@lift.pred| = contract of
+                                      <name>_pred, //@lift.inv| = invariant of the generated loop)
+                                      in the statement that starts with <needle>, the expression `RECV.iter().position(|PAT| EXPR)` becomes `<name>(&RECV, <captures>)`;
+                                      the closure is lifted into `fn <name>_pred(verif_x: &Elem, <captures>) -> bool { let PAT = verif_x; EXPR }` (EXPR byte-for-byte) and
+                                      <name> is the loop std documents for Iterator::position (elements tested front to back, index of the FIRST match, None if none);
+                                      //@lift.found| / //@lift.none| = proof lines (erased) at the two exits of that loop
   //@okmap? <needle>                 (DESIGN 9.2 rule 15) the statement `E.ok().map(|p| CALL);` that starts with <needle> - value discarded - is read as
                                       `if let Ok(p) = E { CALL; }` (std: Result::ok + Option::map call the closure exactly when E is Ok, with its payload);
                                       skipped (recorded) when no such statement exists, e.g. because the code already uses `if let` / `let else`
@@ -394,6 +400,58 @@ def _lift_scope(body, sig, needle, name, extra, fname):
     return body[:start] + new + body[end + 1:], header, cbody, info
 
 
+def _lift_position(body, sig, needle, name, elem, extra, clauses, pred_clauses, inv, fname, in_impl, found=(), none=()):
+    """Rule 17. Returns (new_body, [fn texts], info)."""
+    rx = re.compile(r'\s*'.join(re.escape(tok) for tok in needle.split()))
+    start = None
+    for j, d in rc.code_positions(body):
+        if rx.match(body, j) and (j == 0 or not (body[j - 1].isalnum() or body[j - 1] == '_')):
+            start = j; break
+    if start is None:
+        raise CutError('fn %s: statement with position() not found: %s' % (fname, needle))
+    m = re.compile(r'([A-Za-z_][A-Za-z0-9_.]*)\s*\.\s*iter\s*\(\s*\)\s*\.\s*position\s*\(\s*\|').search(body, start)
+    if not m or body[start:m.start()].count(';'):
+        raise CutError('fn %s: no `X.iter().position(|..| ..)` in the statement %s' % (fname, needle))
+    recv = m.group(1)
+    po = body.index('(', body.index('position', m.start()))
+    pc = rc.match_close(body, po, '(', ')')
+    inner = body[po + 1:pc].strip()
+    # |PAT| EXPR  (PAT may contain parentheses but no `|`)
+    assert inner.startswith('|')
+    bar = inner.index('|', 1)
+    pat, expr = inner[1:bar].strip(), inner[bar + 1:].strip()
+    cands = []
+    so = sig.index('(')
+    sc = rc.match_close(sig, so, '(', ')')
+    for prm in _split_top(sig[so + 1:sc]):
+        if ':' in prm:
+            nm, ty = prm.split(':', 1)
+            nm = nm.strip()
+            if nm.startswith('mut '): nm = nm[4:].strip()
+            if re.match(r'^[A-Za-z_][A-Za-z0-9_]*$', nm):
+                cands.append((nm, ty.strip()))
+    for item in [x for x in extra.split(',') if x.strip()]:
+        nm, ty = item.split(':', 1)
+        cands.append((nm.strip(), ty.strip()))
+    bound = re.findall(r'[A-Za-z_][A-Za-z0-9_]*', pat)
+    caps = _free_captures(expr, cands, bound)
+    prefix = 'Self::' if in_impl else ''
+    cparams = ''.join(', %s: %s' % c for c in caps)
+    cargs = ''.join(', %s' % c[0] for c in caps)
+    pred = ('    pub fn %s_pred(verif_x: &%s%s) -> (b: bool)\n%s\n    {\n        let %s = verif_x;\n        %s\n    }'
+            % (name, elem, cparams, '\n'.join(pred_clauses), pat, expr))
+    loop = ('    pub fn %s(verif_v: &Vec<%s>%s) -> (r: Option<usize>)\n%s\n    {\n        let mut verif_i: usize = 0;\n        while verif_i < verif_v.len()\n'
+            '            invariant %s\n            decreases verif_v@.len() - verif_i,\n        {\n'
+            '            if %s%s_pred(&verif_v[verif_i]%s) { %s return Some(verif_i); }\n            verif_i += 1;\n        }\n        %s\n        None\n    }'
+            % (name, elem, cparams, '\n'.join(clauses), ' '.join(x.strip() for x in inv), prefix, name, cargs, ' '.join(found), ' '.join(none)))
+    new = '%s%s(&%s%s)' % (prefix, name, recv, cargs)
+    closure_text = body[m.start():pc + 1]
+    info = {'fn': fname, 'lifted': name, 'captures': ['%s: %s' % c for c in caps], 'closure_sha256': hashlib.sha256(closure_text.encode()).hexdigest()[:16],
+            'statement_head': re.sub(r'\s+', ' ', closure_text)[:100],
+            'assumed': 'std Iterator::position(f) on a slice iterator: elements tested front to back, returns the index of the FIRST element for which f is true, None if there is none'}
+    return body[:m.start()] + new + body[pc + 1:], [pred, loop], info
+
+
 def _desugar_in_params(sig):
     """`In(pat) : In<T>` parameter => `verif_in : In<T>` + `let In(pat) = verif_in;` (Rust's own desugaring)."""
     lets = []
@@ -538,6 +596,17 @@ def expand(template_path, repo='/repo'):
                     clauses.append('        ' + t[4:].strip())
                 elif t.startswith('//@okmap'):
                     okmaps.append(t.split(None, 1)[1].strip())
+                elif t.startswith('//@liftposition'):
+                    nd, nm, el, extra = [x.strip() for x in t[len('//@liftposition'):].split('|', 3)]
+                    lifts.append({'kind': 'position', 'needle': nd, 'name': nm, 'elem': el, 'extra': extra, 'clauses': [], 'pre': [], 'post': [], 'pred': [], 'inv': []})
+                elif t.startswith('//@lift.pred|'):
+                    lifts[-1]['pred'].append('        ' + t[len('//@lift.pred|'):].strip())
+                elif t.startswith('//@lift.found|'):
+                    lifts[-1].setdefault('found', []).append(t[len('//@lift.found|'):].strip())
+                elif t.startswith('//@lift.none|'):
+                    lifts[-1].setdefault('none', []).append(t[len('//@lift.none|'):].strip())
+                elif t.startswith('//@lift.inv|'):
+                    lifts[-1]['inv'].append(t[len('//@lift.inv|'):].strip())
                 elif t.startswith('//@liftscope'):
                     nd, nm, extra = [x.strip() for x in t[len('//@liftscope'):].split('|', 2)]
                     lifts.append({'kind': 'scope', 'needle': nd, 'name': nm, 'extra': extra, 'clauses': [], 'pre': [], 'post': []})
@@ -622,6 +691,13 @@ def expand(template_path, repo='/repo'):
                 else:
                     side.setdefault('skipped_normalizations', []).append('%s: okmap %s (statement not present in this form)' % (name, nd))
             for lf in lifts:
+                if lf.get('kind') == 'position':
+                    body, texts, linfo = _lift_position(body, sig, lf['needle'], lf['name'], lf['elem'], lf['extra'], lf['clauses'], lf['pred'], lf['inv'], name, anchor != '-', lf.get('found', []), lf.get('none', []))
+                    lifted_out += texts
+                    linfo['clauses'] = [c.strip() for c in lf['clauses'] + lf['pred']]
+                    linfo['file'] = f
+                    side.setdefault('lifted_closures', []).append(linfo)
+                    continue
                 if lf.get('kind') == 'scope':
                     body, lh, lb, linfo = _lift_scope(body, sig, lf['needle'], lf['name'], lf['extra'], name)
                 else:
